@@ -104,10 +104,11 @@ const (
 //	fetch(all accumulation items) -> rw[0..4000); write("in", rw[0..4000))
 //	transfers: nXfer transfers to each other service, memo i distinct
 //	yield(ro hash); halt
-func c22ServiceCode(self uint32, others []uint32, nXfer int) []byte {
-	// ro layout: [0..2) key "in" | [32..64) yield hash | [128..128+128*k) memos
+func c22ServiceCode(self uint32, others []uint32, nXfer int, observe []uint32) []byte {
+	// ro layout: [0..2) key "in" | [2..4) key "io" | [32..64) yield hash | [128..128+128*k) memos
 	ro := make([]byte, 128+128*len(others)*nXfer)
 	copy(ro[0:], []byte("in"))
+	copy(ro[2:], []byte("io"))
 	for i := 0; i < 32; i++ {
 		ro[32+i] = byte(self*16 + uint32(i))
 	}
@@ -127,6 +128,23 @@ func c22ServiceCode(self uint32, others []uint32, nXfer int) []byte {
 	a.loadImm64(9, c22RW)
 	a.loadImm64(10, 4000)
 	a.ecalli(4)
+	// observe the other services as this invocation sees them: info(peer) -> rw[4096+128*i ..), then
+	// write("io", those records). A partial state that leaks between the services of one round
+	// (credited balances, storage footprints) shows up here.
+	for i, peer := range observe {
+		a.loadImm64(7, uint64(peer))
+		a.loadImm64(8, uint64(c22RW+4096+128*i))
+		a.loadImm64(9, 0)
+		a.loadImm64(10, 128)
+		a.ecalli(5)
+	}
+	if len(observe) > 0 {
+		a.loadImm64(7, c22RO+2)
+		a.loadImm64(8, 2)
+		a.loadImm64(9, c22RW+4096)
+		a.loadImm64(10, uint64(128*len(observe)))
+		a.ecalli(4)
+	}
 	m := 0
 	for k := 0; k < nXfer; k++ {
 		for _, d := range others {
@@ -149,7 +167,7 @@ func c22ServiceCode(self uint32, others []uint32, nXfer int) []byte {
 	a.loadImm64(7, c22RO+32)
 	a.ecalli(25) // yield
 	a.halt()
-	prog := c22StandardProgram(ro, make([]byte, 4096), 1, 4096, a.blob())
+	prog := c22StandardProgram(ro, make([]byte, 8192), 1, 4096, a.blob())
 	return append([]byte{1, 'm'}, prog...) // E(len-prefixed metadata) ++ code
 }
 
@@ -183,11 +201,21 @@ func c22Build(nServices, nXfer int) OuterAccumulationInput {
 	}
 	sinks := []uint32{20, 21}
 	accounts := types.ServiceAccountState{}
+	all := append(append([]uint32{}, ids...), sinks...)
+	peers := func(self uint32) []uint32 {
+		var o []uint32
+		for _, x := range all {
+			if x != self {
+				o = append(o, x)
+			}
+		}
+		return o
+	}
 	for _, id := range ids {
-		accounts[types.ServiceID(id)] = c22Account(c22ServiceCode(id, sinks, nXfer))
+		accounts[types.ServiceID(id)] = c22Account(c22ServiceCode(id, sinks, nXfer, peers(id)))
 	}
 	for _, id := range sinks {
-		accounts[types.ServiceID(id)] = c22Account(c22ServiceCode(id, nil, 0))
+		accounts[types.ServiceID(id)] = c22Account(c22ServiceCode(id, nil, 0, peers(id)))
 	}
 	assign := make(types.ServiceIDList, types.CoresCount)
 	for i := range assign {
